@@ -48,17 +48,42 @@ func toTable(t []fe) fit.Table {
 	return out
 }
 
-// memory behind the FIT: a module header with the size field for every startup
-// ACM entry (what getFITDataSize would read if it got that far)
+// memory behind the FIT: a 64-byte module header for every startup ACM entry below
+// 0xFFFFFF00 whose size field (offset 24, in dwords) states S*16 bytes; when two ACM
+// entries name the same address the first one describes the module that is there.
+// acmMem lists what the size reader can see: address of the size field -> its value.
+type memWord struct {
+	A uint64 `json:"addr"`
+	D uint32 `json:"dword"`
+}
+
+func acmMem(t []fe) []memWord {
+	var m []memWord
+	seen := map[uint64]bool{}
+	for _, e := range t {
+		if e.T == 2 && e.A < 0xffffff00 && !seen[e.A] {
+			seen[e.A] = true
+			m = append(m, memWord{e.A + 24, e.S * 16 / 4})
+		}
+	}
+	return m
+}
+
+func memLit(m []memWord) string {
+	s := make([]string, len(m))
+	for i, w := range m {
+		s[i] = gal.Pair(gal.U(w.A), gal.U(uint64(w.D)))
+	}
+	return gal.List(s)
+}
+
 func fitHW(t []fe) *hw {
 	h := newHW()
-	for _, e := range t {
-		if e.T == 2 && e.A < 0xffffff00 {
-			b := make([]byte, 64)
-			binary.LittleEndian.PutUint16(b[0:], 2)
-			binary.LittleEndian.PutUint32(b[24:], e.S*16/4)
-			h.mapMem(e.A, b)
-		}
+	for _, w := range acmMem(t) {
+		b := make([]byte, 64)
+		binary.LittleEndian.PutUint16(b[0:], 2)
+		binary.LittleEndian.PutUint32(b[24:], w.D)
+		h.mapMem(w.A-24, b)
 	}
 	return h
 }
@@ -67,9 +92,24 @@ func fitHW(t []fe) *hw {
 
 type ival struct{ lo, hi *big.Int } // [lo, hi)
 
-func ivOf(e fe) ival {
+// the range a FIT entry denotes: a BIOS startup module is [addr, addr + 16*size field); a
+// startup ACM is [addr, addr + size stated by the module header in memory) - ok=false when
+// that header cannot be read (no memory there, or the address is not below 4 GiB)
+func ivOf(t []fe, i int) (ival, bool) {
+	e := t[i]
 	lo := bi(e.A)
-	return ival{lo, new(big.Int).Add(lo, big.NewInt(int64(e.S)*16))}
+	if e.T != 2 {
+		return ival{lo, new(big.Int).Add(lo, big.NewInt(int64(e.S)*16))}, true
+	}
+	if e.A >= 0xffffff00 {
+		return ival{lo, lo}, false
+	}
+	for _, f := range t { // the module that is at this address
+		if f.T == 2 && f.A == e.A {
+			return ival{lo, new(big.Int).Add(lo, big.NewInt(int64(f.S)*16))}, true
+		}
+	}
+	panic("unreachable")
 }
 func (a ival) overlaps(b ival) bool {
 	// exists x: a.lo <= x < a.hi and b.lo <= x < b.hi
@@ -85,10 +125,13 @@ func (a ival) overlaps(b ival) bool {
 }
 func (a ival) contains(lo, hi *big.Int) bool { return a.lo.Cmp(lo) <= 0 && a.hi.Cmp(hi) >= 0 }
 func (a ival) wraps64() bool                 { return a.hi.Cmp(two64) >= 0 }
+func (a ival) empty() bool                   { return a.lo.Cmp(a.hi) == 0 }
 
-// touching or empty: the closed-interval test of the code differs from the half-open spec
-func touchOrEmpty(a, b ival) bool {
-	return a.lo.Cmp(a.hi) == 0 || b.lo.Cmp(b.hi) == 0 || a.hi.Cmp(b.lo) == 0 || b.hi.Cmp(a.lo) == 0
+// an empty range strictly inside the other one: no point is shared, but "the module lies
+// inside the other" - the interval reading gives no verdict the checks could be held to
+func emptyInside(a, b ival) bool {
+	in := func(x, y ival) bool { return x.empty() && y.lo.Cmp(x.lo) < 0 && x.lo.Cmp(y.hi) < 0 }
+	return in(a, b) || in(b, a)
 }
 
 func ofType(t []fe, ty uint8) []int {
@@ -105,56 +148,63 @@ const siteFit = "pkg/test/fit.go"
 
 func oracleFit(c *gal.Ctx, idx int, k string, ptr uint32, t []fe, got verd, d interface{}) {
 	ibb, acm := ofType(t, 7), ofType(t, 2)
+	if got.Panic {
+		c.OracleFail(idx, k+" panicked instead of giving a verdict: "+got.Msg, siteFit+":getFITDataSize", d)
+		return
+	}
+	// a pair scan: verdict demanded by exact interval arithmetic
+	pairVerdict := func(name string, overlap, degenerate, unreadable, anyPair bool) {
+		switch {
+		case overlap && got.OK:
+			c.OracleFail(idx, fmt.Sprintf("%s: exact interval arithmetic says the ranges overlap, implementation returned %+v", name, got), siteFit+":"+name, d)
+		case overlap:
+			c.OracleOK() // rejected (test error, or internal error for an unreadable / wrapping entry met first)
+		case unreadable && anyPair:
+			// no overlap among the ranges that are known, but a range that cannot be determined: no pass
+			if !got.OK && got.E2 || !got.OK && degenerate {
+				c.OracleOK()
+			} else {
+				c.OracleFail(idx, fmt.Sprintf("%s: a range of the table cannot be determined (unreadable ACM header / range beyond 2^64), implementation returned %+v", name, got), siteFit+":"+name, d)
+			}
+		case degenerate:
+			c.Count("fit_empty_module_inside_another_no_oracle")
+		case exact(got, true):
+			c.OracleOK()
+		default:
+			c.OracleFail(idx, fmt.Sprintf("%s: exact interval arithmetic says disjoint=true, implementation returned %+v", name, got), siteFit+":"+name, d)
+		}
+	}
 	switch k {
 	case "KNoIBBOverlap":
-		spec, touching, wrap := true, false, false
+		overlap, degenerate, wrap := false, false, false
 		for x := 0; x < len(ibb); x++ {
 			for y := x + 1; y < len(ibb); y++ {
-				a, b := ivOf(t[ibb[x]]), ivOf(t[ibb[y]])
-				if a.overlaps(b) {
-					spec = false
-				} else if touchOrEmpty(a, b) {
-					touching = true
-				}
+				a, _ := ivOf(t, ibb[x])
+				b, _ := ivOf(t, ibb[y])
+				overlap = overlap || a.overlaps(b)
+				degenerate = degenerate || emptyInside(a, b)
 				wrap = wrap || a.wraps64() || b.wraps64()
 			}
 		}
-		switch {
-		case !got.Panic && !got.E2 && got.OK == spec && got.E1 == !spec:
-			c.OracleOK()
-		case !got.Panic && spec && !got.OK && touching && !wrap:
-			c.OracleFailKnown(idx, "C05-NoIBBOverlap-adjacent", "NoIBBOverlap reports an overlap for BIOS startup modules that only touch (or are empty)", siteFit+":NoIBBOverlap", d)
-		case !got.Panic && wrap:
-			c.OracleFailKnown(idx, "C05-FIT-overlap-wrap64", "NoIBBOverlap verdict differs from exact interval arithmetic when addr+size exceeds 2^64", siteFit+":NoIBBOverlap", d)
-		default:
-			c.OracleFail(idx, fmt.Sprintf("NoIBBOverlap: exact interval arithmetic says disjoint=%v, implementation returned %+v", spec, got), siteFit+":NoIBBOverlap", d)
-		}
+		pairVerdict("NoIBBOverlap", overlap, degenerate, wrap, len(ibb) > 1)
 	case "KNoACMOverlap":
-		spec := true
+		overlap, degenerate, undet := false, false, false
 		for _, x := range ibb {
+			a, _ := ivOf(t, x)
+			undet = undet || a.wraps64()
 			for _, y := range acm {
-				if ivOf(t[x]).overlaps(ivOf(t[y])) {
-					spec = false
+				b, ok := ivOf(t, y)
+				if !ok {
+					undet = true
+					continue
 				}
+				overlap = overlap || a.overlaps(b)
+				degenerate = degenerate || emptyInside(a, b)
 			}
 		}
-		// the listed panic needs an ACM entry listed after a BIOS startup module entry
-		acmAfterIBB := len(ibb) > 0 && len(acm) > 0 && acm[len(acm)-1] > ibb[0]
-		switch {
-		case got.Panic && acmAfterIBB:
-			c.OracleFailKnown(idx, "C05-FIT-ACM-size-panic", "NoBIOSACMOverlap panics in getFITDataSize as soon as a startup ACM entry follows a BIOS startup module entry", siteFit+":getFITDataSize", d)
-		case got.Panic:
-			c.OracleFail(idx, "NoBIOSACMOverlap panicked: "+got.Msg, siteFit+":NoBIOSACMOverlap", d)
-		case !got.E2 && got.OK == spec && got.E1 == !spec:
-			c.OracleOK()
-		case got.OK && !spec && !acmAfterIBB:
-			c.OracleFailKnown(idx, "C05-NoBIOSACMOverlap-order", "NoBIOSACMOverlap accepts an ACM that overlaps a BIOS startup module when the ACM is listed first", siteFit+":NoBIOSACMOverlap", d)
-		default:
-			c.OracleFail(idx, fmt.Sprintf("NoBIOSACMOverlap: exact interval arithmetic says disjoint=%v, implementation returned %+v", spec, got), siteFit+":NoBIOSACMOverlap", d)
-		}
+		pairVerdict("NoBIOSACMOverlap", overlap, degenerate, undet, len(ibb) > 0 && len(acm) > 0)
 	case "KCoversRV", "KCoversFV", "KCoversFIT":
 		var lo, hi *big.Int
-		wrap32 := false
 		switch k {
 		case "KCoversRV":
 			lo, hi = big.NewInt(0xFFFFFFF0), big.NewInt(0xFFFFFFF4)
@@ -163,43 +213,45 @@ func oracleFit(c *gal.Ctx, idx int, k string, ptr uint32, t []fe, got verd, d in
 		default:
 			lo = bi(uint64(ptr))
 			hi = new(big.Int).Add(lo, big.NewInt(int64(len(t))*16))
-			wrap32 = hi.Cmp(two32) >= 0
 		}
-		spec := false
+		spec, wrap := false, false
 		for _, x := range ibb {
-			if ivOf(t[x]).contains(lo, hi) {
-				spec = true
-			}
+			a, _ := ivOf(t, x)
+			spec = spec || a.contains(lo, hi)
+			wrap = wrap || a.wraps64()
 		}
 		switch {
-		case !got.Panic && !got.E2 && got.OK == spec && got.E1 == !spec:
+		case !wrap && exact(got, spec):
 			c.OracleOK()
-		case !got.Panic && wrap32:
-			c.OracleFailKnown(idx, "C05-IBBCoversFIT-wrap32", "IBBCoversFIT computes the end of the FIT in uint32; a table reaching 4 GiB is 'covered' by a module that does not contain it", siteFit+":IBBCoversFIT", d)
+		case wrap && !spec && !got.OK && (got.E1 != got.E2):
+			c.OracleOK() // not covered: rejected, as test error or (module beyond 2^64 met) internal error
+		case wrap && spec && (got.isPass() || !got.OK && got.E2):
+			c.Count("fit_covers_with_module_beyond_2^64")
 		default:
 			c.OracleFail(idx, fmt.Sprintf("%s: exact interval arithmetic says covered=%v, implementation returned %+v", k, spec, got), siteFit, d)
 		}
 	case "KACMBelow4G":
-		spec := true
+		spec, undet := true, false
 		for _, y := range acm {
-			if ivOf(t[y]).hi.Cmp(two32) > 0 {
+			b, ok := ivOf(t, y)
+			if !ok {
+				undet = true
+			} else if b.hi.Cmp(two32) > 0 {
 				spec = false
 			}
 		}
 		switch {
-		case got.Panic && len(acm) > 0:
-			c.OracleFailKnown(idx, "C05-FIT-ACM-size-panic", "BIOSACMIsBelow4G panics in getFITDataSize for every FIT with a startup ACM entry", siteFit+":getFITDataSize", d)
-		case got.Panic:
-			c.OracleFail(idx, "BIOSACMIsBelow4G panicked: "+got.Msg, siteFit+":BIOSACMIsBelow4G", d)
-		case !got.E2 && got.OK == spec && got.E1 == !spec:
+		case !undet && exact(got, spec):
 			c.OracleOK()
+		case undet && !got.OK && (got.E2 || !spec && got.E1):
+			c.OracleOK() // an ACM whose size cannot be read: never a pass
 		default:
-			c.OracleFail(idx, fmt.Sprintf("BIOSACMIsBelow4G: spec %v, implementation %+v", spec, got), siteFit+":BIOSACMIsBelow4G", d)
+			c.OracleFail(idx, fmt.Sprintf("BIOSACMIsBelow4G: every ACM ends at or below 4 GiB = %v (ACM header unreadable = %v), implementation %+v", spec, undet, got), siteFit+":BIOSACMIsBelow4G", d)
 		}
 	case "KHasMicrocode", "KHasACM", "KHasIBB":
 		ty := map[string]uint8{"KHasMicrocode": 1, "KHasACM": 2, "KHasIBB": 7}[k]
 		spec := len(ofType(t, ty)) > 0
-		if !got.Panic && !got.E2 && got.OK == spec && got.E1 == !spec {
+		if !got.E2 && got.OK == spec && got.E1 == !spec {
 			c.OracleOK()
 		} else {
 			c.OracleFail(idx, fmt.Sprintf("%s: FIT has entry of type %d = %v, implementation %+v", k, ty, spec, got), siteFit, d)
@@ -237,8 +289,9 @@ func runFit(k string, ptr uint32, t []fe) verd {
 func addFit(c *gal.Ctx, kind string, ks []string, ptr uint32, t []fe) {
 	for _, k := range ks {
 		got := runFit(k, ptr, t)
-		d := map[string]interface{}{"check": k, "fitPointer": ptr, "fit": t, "got": got}
-		idx := c.Add(kind+"/"+k, fmt.Sprintf("CFit %s %d %s %s", k, ptr, tblLit(t), got.lit()), d, len(t) > 1)
+		mem := acmMem(t)
+		d := map[string]interface{}{"check": k, "fitPointer": ptr, "fit": t, "acmSizeFields": mem, "got": got}
+		idx := c.Add(kind+"/"+k, fmt.Sprintf("CFit %s %d %s %s %s", k, ptr, tblLit(t), memLit(mem), got.lit()), d, len(t) > 1)
 		oracleFit(c, idx, k, ptr, t, got, d)
 	}
 }
@@ -300,6 +353,22 @@ func genFit(c *gal.Ctx) {
 		}
 	}
 	addFit(c, "fit_empty", allKs, 0xFFFD0000, nil)
+	// startup ACM whose header cannot be read: above the mapped memory, size field ending exactly at /
+	// beyond 4 GiB, address at and above 4 GiB, address whose int64 offset + 24 comes out small again
+	for _, a := range []uint64{0xFFFFFF00, 0xFFFFFFE4, 0xFFFFFFE8, 0xFFFFFFE9, 0x100000000, 0x7FFFFFFFFFFFFFF0, 0x8000000000000000, 0xFFFFFFFFFFFFFFE8, 0xFFFFFFFFFFFFFFF8} {
+		addFit(c, "fit_acm_unreadable", []string{"KNoACMOverlap", "KACMBelow4G"}, 0xFFFD0000, []fe{hdr(3), {T: 2, A: a, S: 0x100, V: 0x100}, {T: 7, A: 0xFFF00000, S: 0x1000, V: 0x100}})
+		addFit(c, "fit_acm_unreadable", []string{"KNoACMOverlap", "KACMBelow4G"}, 0xFFFD0000, []fe{hdr(4), {T: 7, A: 0xFFF00000, S: 0x1000, V: 0x100}, {T: 2, A: 0xFFF00800, S: 0x10, V: 0x100}, {T: 2, A: a, S: 0x100, V: 0x100}})
+	}
+	// ACM ending exactly at / one paragraph beyond 4 GiB; ACM adjacent to / one paragraph into an IBB, both orders
+	for _, s := range []uint32{0xFFF, 0x1000, 0x1001} {
+		addFit(c, "fit_acm_4g_edge", []string{"KNoACMOverlap", "KACMBelow4G"}, 0xFFFD0000, []fe{hdr(3), {T: 2, A: 0xFFFF0000, S: s, V: 0x100}, {T: 7, A: 0xFFF00000, S: 0x1000, V: 0x100}})
+		addFit(c, "fit_acm_ibb_edge", []string{"KNoACMOverlap"}, 0xFFFD0000, []fe{hdr(3), {T: 2, A: 0xFFF00000, S: s, V: 0x100}, {T: 7, A: 0xFFF10000, S: 0x1000, V: 0x100}})
+		addFit(c, "fit_acm_ibb_edge", []string{"KNoACMOverlap"}, 0xFFFD0000, []fe{hdr(3), {T: 7, A: 0xFFF00000, S: s, V: 0x100}, {T: 2, A: 0xFFF10000, S: 0x1000, V: 0x100}})
+	}
+	// a module whose range leaves the 64-bit address space next to a healthy pair / before the covering module
+	addFit(c, "fit_wrap64_mixed", rangeKs, 0xFFFD0000, []fe{hdr(4), {T: 7, A: 0xFFFFFFFFFFFFFFF0, S: 1, V: 0x100}, {T: 7, A: 0xFFF00000, S: 0x8000, V: 0x100}, {T: 7, A: 0xFFF80000, S: 0x8000, V: 0x100}})
+	addFit(c, "fit_wrap64_mixed", rangeKs, 0xFFFD0000, []fe{hdr(4), {T: 7, A: 0xFFF00000, S: 0x8000, V: 0x100}, {T: 7, A: 0xFFF80000, S: 0x8000, V: 0x100}, {T: 7, A: 0xFFFFFFFFFFFFFFF0, S: 1, V: 0x100}})
+	addFit(c, "fit_wrap64_mixed", rangeKs, 0xFFFD0000, []fe{hdr(2), {T: 7, A: 0xFFFFFFFFFFFFFFF0, S: 0, V: 0x100}})
 
 	// --- random grid layouts: touching / overlapping / nested / reordered are all frequent
 	n := c.Scale(110, 1500)
